@@ -10,6 +10,8 @@ import Mdsort.Proofs.Mime
 import Mdsort.Model.Eval
 import Driver.Ast
 import Driver.Wire
+import Driver.Conf
+import Mdsort.Model.Conf
 import Mdsort.Model.Main
 import Mdsort.Model.Plan
 import Mdsort.Model.Inspect
@@ -150,6 +152,12 @@ def rxFFI (p : Model.Pat) (subject : Bytes) : Model.RxRes :=
       if so == 0xffffffff then none else some (so.toNat, eo.toNat))
   | some 1 => .nomatch
   | _ => .error
+
+/-- `regcomp` succeeds (status 3 of the FFI call is a compilation error). -/
+def rxOkFFI (p : Model.Pat) : Bool :=
+  let r := regexFFI (ba p.src) (ba []) (if p.icase then 1 else 0)
+  let r0 : Option UInt32 := r[0]?
+  r0 != some 3
 
 def strptimeEnv (s : Bytes) : Option (Model.Tm × Bytes) :=
   Gen.dateFormats.findSome? fun f =>
@@ -514,6 +522,8 @@ def handleMsg (side op : String) (args : List Bytes) : Option String :=
   | "M", "eval", as => some (handleEval as)
   | "M", "conform", as => some (handleConform as)
   | "M", "lex", as => some (handleLex as)
+  | "M", "conf", as => some (Driver.Conf.handle rxOkFFI as)
+  | "M", "confprint", as => some (Driver.Conf.handlePrint rxOkFFI as)
   | _, _, _ => none
 
 /-! ### L0 (index-level) ops: `l0 <fn> <hex>*` answers `OK <what the M op prints>` or `FAULT <fault>` -/
